@@ -7,4 +7,5 @@ CONSTANTS
   Shard = 0
   NShards = 1
 INVARIANT RoundTrip
+INVARIANT LinesTheorem
 CHECK_DEADLOCK FALSE
